@@ -50,3 +50,12 @@ Print Assumptions C11_dead_detected_always.
 Theorem C11_executor_invariant : forall ops w e, In e (states start_policy_src wait_policy_src (init_ex w) ops) -> ExInv e.
 Proof. exact (fun ops w e H => ExInv_states start_policy_src wait_policy_src ops (init_ex w) (ExInv_init w) e H). Qed.
 Print Assumptions C11_executor_invariant.
+
+(* ---- line level: with the statement order read from _start_processes, a KeyboardInterrupt before any statement of a worker launch
+   finds the future in the pending or in the running table — so cancel() or the liveness check reaches it and the drain that
+   follows a first interrupt is not left waiting for a future nobody will ever finish (that was defect D13). *)
+Require Import LT.Model.Launch LT.Proofs.LaunchProofs.
+Theorem C11_launch_never_loses_future : forall i t k, mem i (t_pending t) = true ->
+  tracked i (interrupted_at launch_order_src i t k) = true.
+Proof. exact launch_tracked. Qed.
+Print Assumptions C11_launch_never_loses_future.
